@@ -21,27 +21,19 @@ func FocusFilter(p *core.Program, r *core.Report, rule string) {
 		r.Lost(rule, "ConnlistAnalyzer.focusWorkload / isPeerFocusWorkload / includePairOfWorkloads")
 		return
 	}
-	// who-may-read the option
-	readers := map[string]string{"isPeerFocusWorkload": "the filter predicate", "existsFocusWorkload": "existence check for the warning", "getConnectionsList": "emptiness tests guarding the warning", "WithFocusWorkload": "option setter"}
+	// who-may-read the option: the filter predicate, the existence check (which builds the warning text) and the option
+	// setter read its value; every other function may only test whether an option was given at all (a comparison with
+	// the empty string) - wherever such a test is written, it cannot make the computed connections depend on the name
+	fullReaders := map[*types.Func]string{pred.Obj: "the filter predicate"}
+	if ex := p.Func(core.PkgConnlist, "ConnlistAnalyzer", "existsFocusWorkload"); ex != nil {
+		fullReaders[ex.Obj] = "existence check for the warning"
+	}
+	if st := p.Func(core.PkgConnlist, "", "WithFocusWorkload"); st != nil {
+		fullReaders[st.Obj] = "option setter"
+	}
 	for _, fd := range p.Funcs {
 		info := fd.Pkg.TypesInfo
 		pos := token.NoPos
-		ast.Inspect(fd.Decl.Body, func(n ast.Node) bool {
-			if se, ok := n.(*ast.SelectorExpr); ok && core.FieldOf(info, se) == fld && !pos.IsValid() {
-				pos = se.Pos()
-			}
-			return true
-		})
-		if !pos.IsValid() {
-			continue
-		}
-		why, ok := readers[core.RefName(fd.Obj)]
-		r.Check(ok, rule+"-read", fd.Key()+": reads the focus-workload option", p.Pos(pos), why, "the focus option is read outside the filter predicate and the existence check: the computed connections could depend on it (it must be a pure filter of the full report)")
-	}
-	r.Floor(rule+"-read", 3)
-	// in getConnectionsList the option is only compared with the empty string
-	if fd := p.Func(core.PkgConnlist, "ConnlistAnalyzer", "getConnectionsList"); fd != nil {
-		info := fd.Pkg.TypesInfo
 		bad := ""
 		var parents []ast.Node
 		ast.Inspect(fd.Decl.Body, func(n ast.Node) bool {
@@ -50,19 +42,41 @@ func FocusFilter(p *core.Program, r *core.Report, rule string) {
 				return true
 			}
 			if se, ok := n.(*ast.SelectorExpr); ok && core.FieldOf(info, se) == fld {
+				if !pos.IsValid() {
+					pos = se.Pos()
+				}
 				par := parents[len(parents)-1]
+				if pe, isP := par.(*ast.ParenExpr); isP && len(parents) >= 2 {
+					_ = pe
+					par = parents[len(parents)-2]
+				}
 				be, ok := par.(*ast.BinaryExpr)
 				if !ok || (be.Op != token.EQL && be.Op != token.NEQ) {
 					bad = "used in " + core.ExprStr(par)
-				} else if v, isC := core.ConstString(info, be.Y); !isC || v != "" {
-					bad = "compared with " + core.ExprStr(be.Y)
+				} else {
+					other := be.Y
+					if ast.Unparen(be.Y) == ast.Expr(se) {
+						other = be.X
+					}
+					if v, isC := core.ConstString(info, other); !isC || v != "" {
+						bad = "compared with " + core.ExprStr(other)
+					}
 				}
 			}
 			parents = append(parents, n)
 			return true
 		})
-		r.Check(bad == "", rule+"-read", fd.Key()+": only tests whether a focus workload was given", p.Pos(fd.Decl.Pos()), "compared with \"\" only", "the focus option is "+bad+" inside the computation of the connections")
+		if !pos.IsValid() {
+			continue
+		}
+		if why, ok := fullReaders[fd.Obj]; ok {
+			r.OK(rule+"-read", fd.Key()+": reads the focus-workload option", p.Pos(pos), why)
+			continue
+		}
+		// a function literal of the setter (`func(c *ConnlistAnalyzer) { c.focusWorkload = w }`) writes, it does not read
+		r.Check(bad == "", rule+"-read", fd.Key()+": only tests whether a focus workload was given", p.Pos(pos), "compared with \"\" only", "the focus option is "+bad+" outside the filter predicate and the existence check: the computed connections could depend on it (it must be a pure filter of the full report)")
 	}
+	r.Floor(rule+"-read", 3)
 	// the focus-filtered peers list is read only for the dot output and the existence check
 	if pl := p.Field(core.PkgConnlist, "ConnlistAnalyzer", "peersList"); pl != nil {
 		plReaders := map[string]string{"getFormatter": "handed to the dot formatter", "existsFocusWorkload": "existence check", "getConnectionsList": "builds the list (self-append)"}
@@ -384,39 +398,85 @@ func FocusFilter(p *core.Program, r *core.Report, rule string) {
 		r.Check(nExit > 0 && bad == "", rule+"-pred", incl.Key()+": a pair is kept iff its source OR its destination is the focus workload", p.Pos(incl.Decl.Pos()), "every non-exclusion exit answers isPeerFocusWorkload(src) || isPeerFocusWorkload(dst)",
 			"the pair filter does not answer isPeerFocusWorkload(src) || isPeerFocusWorkload(dst) ("+bad+"): entries whose two ends both match (or only one) can be dropped")
 	}
-	// absent workload: warning, no error
+	// absent workload: warning, no error. The existence check is found by its call (whatever the local that holds its
+	// answer is called, and whether the reaction sits in getConnectionsList or in a helper it delegates to): where the
+	// answer is known to be negative a warning is appended, and getConnectionsList returns (nil, _, nil) there.
 	if fd := p.Func(core.PkgConnlist, "ConnlistAnalyzer", "getConnectionsList"); fd != nil {
-		info := fd.Pkg.TypesInfo
-		w := facts.NewWalker(info)
+		exists := p.Func(core.PkgConnlist, "ConnlistAnalyzer", "existsFocusWorkload")
 		var okWarn, okRet bool
-		notFound := func(f facts.Formula) bool {
-			for _, a := range facts.Atoms(f) {
-				if strings.HasPrefix(a, "b:existFocusWorkload") && facts.Entails(f, facts.Not{X: facts.Atom(a)}) {
+		var helper *core.FuncDecl
+		if exists != nil {
+			for _, g := range p.FuncsIn(core.PkgConnlist) {
+				ginfo := g.Pkg.TypesInfo
+				var existVars []*types.Var
+				ast.Inspect(g.Decl.Body, func(nd ast.Node) bool {
+					as, ok := nd.(*ast.AssignStmt)
+					if !ok || len(as.Rhs) != 1 {
+						return true
+					}
+					if c, isC := ast.Unparen(as.Rhs[0]).(*ast.CallExpr); isC && core.Callee(ginfo, c) == exists.Obj && g.Obj != exists.Obj {
+						if id, isId := as.Lhs[0].(*ast.Ident); isId {
+							if v, isV := ginfo.ObjectOf(id).(*types.Var); isV {
+								existVars = append(existVars, v)
+							}
+						}
+					}
 					return true
+				})
+				if len(existVars) == 0 {
+					continue
 				}
-			}
-			return false
-		}
-		w.OnStmt = func(s ast.Stmt, f facts.Formula) {
-			if !notFound(f) {
-				return
-			}
-			switch x := s.(type) {
-			case *ast.AssignStmt:
-				if len(x.Rhs) == 1 {
-					if c, ok := ast.Unparen(x.Rhs[0]).(*ast.CallExpr); ok && core.IsBuiltinCall(info, c, "append") && len(c.Args) == 2 {
-						if n, _ := callName(info, c.Args[1]); n == "newConnlistAnalyzerWarning" {
-							okWarn = true
+				if g != fd {
+					helper = g
+				}
+				w := facts.NewWalker(ginfo)
+				notFound := func(f facts.Formula) bool {
+					for _, v := range existVars {
+						if facts.Entails(f, facts.MkNot(facts.Atom("b:"+w.PathOfVar(v)))) {
+							return true
+						}
+					}
+					return false
+				}
+				w.OnStmt = func(s ast.Stmt, f facts.Formula) {
+					if !notFound(f) {
+						return
+					}
+					switch x := s.(type) {
+					case *ast.AssignStmt:
+						if len(x.Rhs) == 1 {
+							if c, ok := ast.Unparen(x.Rhs[0]).(*ast.CallExpr); ok && core.IsBuiltinCall(ginfo, c, "append") && len(c.Args) == 2 {
+								if n, _ := callName(ginfo, c.Args[1]); n == "newConnlistAnalyzerWarning" {
+									okWarn = true
+								}
+							}
+						}
+					case *ast.ReturnStmt:
+						if g == fd && len(x.Results) == 3 && core.IsNil(ginfo, x.Results[2]) && core.IsNil(ginfo, x.Results[0]) {
+							okRet = true
 						}
 					}
 				}
-			case *ast.ReturnStmt:
-				if len(x.Results) == 3 && core.IsNil(info, x.Results[2]) && core.IsNil(info, x.Results[0]) {
-					okRet = true
-				}
+				w.WalkBody(g.Decl.Body, nil)
 			}
 		}
-		w.WalkBody(fd.Decl.Body, nil)
+		if helper != nil && !okRet {
+			// getConnectionsList returns (nil, _, nil) where the helper's answer is known
+			info := fd.Pkg.TypesInfo
+			w := facts.NewWalker(info)
+			w.OnStmt = func(s ast.Stmt, f facts.Formula) {
+				x, ok := s.(*ast.ReturnStmt)
+				if !ok || len(x.Results) != 3 || !core.IsNil(info, x.Results[2]) || !core.IsNil(info, x.Results[0]) {
+					return
+				}
+				for _, a := range facts.Atoms(f) {
+					if strings.HasPrefix(a, "b:") && strings.Contains(a, "."+core.RefName(helper.Obj)+"(") && (facts.Entails(f, facts.Atom(a)) || facts.Entails(f, facts.MkNot(facts.Atom(a)))) {
+						okRet = true
+					}
+				}
+			}
+			w.WalkBody(fd.Decl.Body, nil)
+		}
 		r.Check(okWarn && okRet, rule+"-absent", fd.Key()+": a focus workload that matches nothing yields an empty result with a warning, not an error", p.Pos(fd.Decl.Pos()), "warning appended, nil error returned", "the not-found branch no longer records a warning and returns (nil, nil, nil)")
 	}
 }
@@ -1047,8 +1107,12 @@ func WorkloadIdentity(p *core.Program, r *core.Report, rule string) {
 			continue
 		}
 		n++
-		r.Check(kindUse, rule, fd.Key()+": identifies an owner by name together with its kind", p.Pos(pos), "Owner.Name and Owner.Kind are both part of the comparison / key",
+		const what = ": identifies an owner by name together with its kind"
+		r.Check(kindUse, rule, fd.Key()+what, p.Pos(pos), "Owner.Name and Owner.Kind are both part of the comparison / key",
 			"an owner is identified by its name (and namespace) without its kind: two workloads of different kinds with the same name are taken for one, so one of them is dropped from the report or their pods are rejected as inconsistent")
+		for _, owner := range SiteOwners(p, fd) {
+			r.Alias(rule, fd.Key()+what, owner+what)
+		}
 	}
 	r.RuleCounts[rule+"-sites"] = n
 	r.Floor(rule+"-sites", 2)
